@@ -35,12 +35,14 @@ Lemma cfobj_eq xl yl P Q Rr S T U V W N P' Q' R' S' T' U' V' W' :
   cfobj xl yl P Q Rr S T U V W N = cfobj xl yl P' Q' R' S' T' U' V' W' N.
 Proof. intros; subst; reflexivity. Qed.
 
-Lemma compute_parameters_sums (xs ys : list R) P Q Rr S T U V W N :
+(* whatever values v2 .. v10 the nine sum fields and N hold before (they are only overwritten) *)
+Lemma compute_parameters_any (xs ys : list R) (v2 v3 v4 v5 v6 v7 v8 v9 v10 : val R) :
   length xs = length ys ->
-  CurveFitting__compute_parameters Rops (cfobj (fl xs) (fl ys) P Q Rr S T U V W N)
+  CurveFitting__compute_parameters Rops
+    (VObj cCurveFitting [VList (fl xs); VList (fl ys); v2; v3; v4; v5; v6; v7; v8; v9; v10])
   = VTuple [cf_of xs ys; VNone].
 Proof.
-  intro Hl. unfold CurveFitting__compute_parameters, cfobj.
+  intro Hl. unfold CurveFitting__compute_parameters.
   pyrunL.
   match goal with |- context [py_range ?a ?b] =>
     let H := fresh in eassert (H : b = _) by (pyrunL; py_canon_refl2); rewrite H; clear H end.
@@ -84,6 +86,12 @@ Proof.
   - rewrite (sumr_nth2 (fun x y => x * y * x) xs ys Hl). lra.
   - rewrite Hl. lra.
 Qed.
+
+Lemma compute_parameters_sums (xs ys : list R) P Q Rr S T U V W N :
+  length xs = length ys ->
+  CurveFitting__compute_parameters Rops (cfobj (fl xs) (fl ys) P Q Rr S T U V W N)
+  = VTuple [cf_of xs ys; VNone].
+Proof. intro Hl. unfold cfobj. apply compute_parameters_any. exact Hl. Qed.
 
 Lemma sum2_cons g a xs b ys : sum2 g (a :: xs) (b :: ys) = g a b + sum2 g xs ys.
 Proof. reflexivity. Qed.
